@@ -51,6 +51,11 @@ let () =
     | id :: "R" :: ver :: ns :: p :: r :: lists :: old :: _ ->
       let res = rebalance_from_lists (dec_name ver) (dec_name ns) (n_of_dec p) (n_of_dec r) (dec_lists old) (dec_lists lists) in
       Printf.printf "%s\t%s\n" id (out_layout res)
+    | id :: (("A" | "U") as kind) :: ver :: ns :: p :: r :: nodes :: isrs :: part :: _ ->
+      let f = if kind = "A" then alloc_node else unwanted_node in
+      let res = f (dec_name ver) (dec_name ns) (n_of_dec p) (n_of_dec r) (dec_lists isrs) (dec_nodes nodes)
+                  (nat_of_int (int_of_string part)) in
+      Printf.printf "%s\t%s\n" id (match res with Ok x -> "ok " ^ enc_name x | Refuse -> "refuse" | Panic -> "panic")
     | id :: "N" :: nodes :: _ ->
       Printf.printf "%s\tok %s\n" id (enc_lists (node_name_list (dec_nodes nodes)))
     | id :: "M" :: names :: idx :: leads :: reps :: parts :: _ ->
